@@ -543,6 +543,8 @@ func (fr *frame) execInstr(ins ssa.Instruction, st *State, reach string, xedges 
 		fr.store(addr, t.Addr, v, t.Val.Type(), st, reach, t.Pos())
 		fr.siteAsserts(t, nil, st, reach, true)
 	case *ssa.MapUpdate:
+		fr.siteAsserts(t, nil, st, reach, false)
+		defer fr.siteAsserts(t, nil, st, reach, true)
 		m := fr.term(t.Map)
 		mt := t.Map.Type().Underlying().(*types.Map)
 		dom, val, _, _ := u.mapHeaps(mt)
@@ -1384,7 +1386,12 @@ func (fr *frame) assertTarget(a *Clause) ssa.Instruction {
 	// a plain assignment (no call on its line) binds to its store instruction
 	for _, b := range fr.fn.Blocks {
 		for _, ins := range b.Instrs {
-			if c, ok := ins.(*ssa.Store); ok && c.Pos().IsValid() {
+			switch ins.(type) {
+			case *ssa.Store, *ssa.MapUpdate:
+			default:
+				continue
+			}
+			if c := ins; c.Pos().IsValid() {
 				if ln := e.fset.Position(c.Pos()).Line; !callLine[ln] && strings.Contains(e.sourceLine(c.Pos()), a.Site) {
 					cands = append(cands, c)
 				}
@@ -1583,7 +1590,7 @@ func sameLoadedValue(a, b ssa.Value) bool {
 // isSiteInstr: instructions a site clause ("assert at ...") can bind to.
 func (fr *frame) isSiteInstr(ins ssa.Instruction) bool {
 	switch ins.(type) {
-	case *ssa.Call, *ssa.Store:
+	case *ssa.Call, *ssa.Store, *ssa.MapUpdate:
 		return ins.Pos().IsValid()
 	}
 	return false
